@@ -295,7 +295,7 @@ def run_miri(cfg, lines, timeout=3000, target=None):
     if REPO != "/repo":
         cmd += ["--config", 'paths=["%s"]' % REPO]
     cmd += ["--", "run", "--flush"]
-    env = dict(ENV, HX_REPO=REPO, MIRIFLAGS="-Zmiri-disable-isolation")
+    env = dict(ENV, HX_REPO=REPO, MIRIFLAGS="-Zmiri-disable-isolation -Zmiri-deterministic-floats")
     try:
         p = subprocess.run(cmd, cwd=HARNESS, input=("\n".join(lines) + "\n").encode("latin-1"), stdout=subprocess.PIPE,
                            stderr=subprocess.PIPE, env=env, timeout=timeout)
